@@ -174,6 +174,8 @@ def c18(payload):
                     for k in range(nl):
                         for p in rng.sample(range(npulse), min(npulse, rng.choice([1, 1, 2]))):
                             argv.append('--attach-load=%d,%d' % (k + 1, p + 1))
+                            if rng.random() < 0.2:
+                                argv.append('--attach-load=%d,%d' % (k + 1, p + 1))      # the load twice on that pulse: two entries
                 r['argv'] = argv
                 err = io.StringIO()
                 m = main(argv, f_err=err, return_mininec=True)
